@@ -344,6 +344,8 @@ class RankedVoteValidator:
                 all_candidates.update(item)
                 total_votes += len(item)
             else:
+                self.nominator.validate(item)
+                self.rank_vote_count_checkers[rank_i+1].check(1)
                 all_candidates.add(item)
                 total_votes += 1
         self.total_count_checker.check(total_votes)
